@@ -28,6 +28,29 @@ package ice
 //@   site call readStreamingPacket#1 assert while-it-waits-for-the-first-frame-the-connection-is-within-reach-of-close: has(m.pending, conn)
 //@   site call closeAndLogError#0 assert closes-this-conn-at-most-once: arg1.payload == conn.payload && closedCount == 0 && !attached
 //@   site call closeAndLogError#0 ghost closedCount := closedCount + 1
+//@   ghostvar readOK bool = false
+//@   ghostvar decodedOK bool = false
+//@   ghostvar hasUser bool = false
+//@   ghostvar foundPC bool = false
+//@   ghostvar createdPC bool = false
+//@   ghostvar offered bool = false
+//@   ghostvar readTried bool = false
+//@   ghostvar closedAtTop bool = false
+//@   site call Lock#1 ghost after closedAtTop := m.closed
+//@   site call readStreamingPacket#1 ghost readTried := true
+//@   site call readStreamingPacket#1 ghost readOK := result1 == nil
+//@   site call Decode#1 assert a-connection-whose-first-frame-could-not-be-read-is-closed-not-parsed: readOK
+//@   site call Decode#1 ghost decodedOK := result == nil
+//@   site call Get#1 assert a-first-frame-that-is-not-a-stun-message-closes-the-connection: decodedOK
+//@   site call Get#1 ghost hasUser := result1 == nil
+//@   site call Split#1 assert a-binding-request-without-username-closes-the-connection: hasUser
+//@   site call getConn#1 ghost foundPC := result1
+//@   site call createConn#1 assert a-provisional-connection-is-created-only-for-a-ufrag-nobody-registered: !foundPC
+//@   site call createConn#1 ghost createdPC := result1 == nil
+//@   site call AddConn#1 assert attaches-only-to-a-packet-connection-that-was-found-or-created: foundPC || createdPC
+//@   site call AddConn#1 ghost offered := true
+//@   ensures an-open-mux-waits-for-the-first-frame-of-every-accepted-connection: !closedAtTop ==> readTried
+//@   ensures a-connection-whose-packet-connection-exists-is-offered-to-it: foundPC || createdPC ==> offered
 //@   site call Get#1 assert only-stun-binding-reaches-the-username-lookup: msg.Type.Method == stun.MethodBinding && arg1 == stun.AttrUsername
 //@   site call Split#1 assert splits-the-username-at-the-colon: arg1 == ":"
 //@   site call Split#1 ghost parts0 := result[0]
@@ -84,6 +107,10 @@ package ice
 //@   site call retainShared#1 assume reference-counter-not-exhausted: conn.refs < 2147483647
 //@   site call retainShared#1 assert C15 C13 retains-a-reference-of-the-connection-found: *arg0 == conn.refs && foundOpen && hadHandles
 //@   site call retainShared#1 ghost retained := result
+//@   ghostvar releasedTemp bool = false
+//@   site call Add#1 assert C15 C13 gives-back-only-the-temporary-reference-it-took: retained && arg1 == 0 - 1
+//@   site call Add#1 ghost releasedTemp := true
+//@   ensures C15 C13 the-temporary-reference-is-given-back-once-the-new-handle-holds-its-own: retained == releasedTemp
 //@   ghostvar claimed bool = false
 //@   site call ClearAliveTimer#1 ghost claimed := result
 //@   site call newSharedPacketConn#1 assert C15 C13 a-handle-is-handed-out-only-on-a-connection-just-created-never-handed-out-before-or-kept-alive-by-a-retained-reference: createdNow || (foundOpen && claimed && (!hadHandles || retained))
